@@ -45,12 +45,20 @@ type Watcher interface {
 type MockWatcher struct {
 	UpdatesChan chan Entry
 	StopChan    chan struct{}
+
+	stopOnce sync.Once
 }
 
 func (w *MockWatcher) Updates() <-chan Entry { return w.UpdatesChan }
 
+// Stop is idempotent, like nats.KeyWatcher.Stop: the same watcher may be handed
+// out by a custom WatchFunc, and stopped, more than once.
 func (w *MockWatcher) Stop() {
-	close(w.StopChan)
+	w.stopOnce.Do(func() {
+		if w.StopChan != nil {
+			close(w.StopChan)
+		}
+	})
 }
 
 type MockKeyValue struct {
